@@ -195,6 +195,11 @@ void judge(const sim::Json& sc, const RunRecord& rec, sim::RunResult& r) {
         bool ok_class = (sf.code >= 200 && sf.code <= 299) || (sf.code >= 500 && sf.code <= 999);
         if (!ok_class)
           flag("WRONG_CODE_CLASS", cause_of(msg), "the solver was never run, the .sol reports the failure '" + msg.substr(0, 300) + "' with solve code " + std::to_string(sf.code) + " (expected 200-299 or 500-999)");
+        // "proven infeasible during conversion ... with a solve-result code of the matching class (200-299 infeasible)":
+        // when the diagnosis itself says the model is infeasible the code must be of the infeasible class
+        if (ok_class && msg.find("Model infeasible") != std::string::npos && !(sf.code >= 200 && sf.code <= 299))
+          flag("INFEASIBLE_REPORTED_AS_FAILURE", "conversion", "the .sol diagnoses '" + msg.substr(0, 300) + "' but carries solve code " + std::to_string(sf.code) + " (expected 200-299)");
+        if (msg.find("Model infeasible") != std::string::npos) r.stats.set("probe.infeasible_by_conversion", 1);
         outcome = "B1";
       } else {
         outcome = "A";
